@@ -74,9 +74,28 @@ def norm_prim_rule(repo, R):
     # utils.factorial2 treats (-1)!! (and every non-positive value) as 1
     ff = repo.func("gbasis.utils.factorial2")
     R.note_function(ff.qualname)
-    src = ast.unparse(ff.node)
-    R.check("out[out <= 0] = 1.0" in src or "out[out <= 0] = 1" in src or "out[out < 1] = 1" in src, "NORM", ff.site, "(-1)!! == 1",
-            "factorial2 no longer maps non-positive results to 1 ((-1)!! must be 1 for s-type components)", where=ff.where())
+    S = sp.Symbol("S", integer=True, nonnegative=True)  # scipy.special.factorial2(n): n!! for n >= 0 and 0 for negative n
+
+    class F2(Elem):
+        def call(self, e):
+            d = ast.unparse(e.func)
+            if d in ("scipy.special.factorial2", "special.factorial2", "scipy_factorial2"):
+                return S
+            return Elem.call(self, e)
+    try:
+        ev2 = F2(ff, {ff.params[0]: sp.Symbol("n", integer=True)}, rule="NORM")
+        ev2.run()
+        val = ev2.returns[0][1] if len(ev2.returns) == 1 else None
+    except AnalysisError:
+        val = None
+    if val is None or not val.free_symbols <= {S}:
+        raise AnalysisError("NORM", "utils.factorial2 is not `scipy.special.factorial2` with a patch of the non-positive results", ff.where())
+    # the value is touched only through a comparison with a constant and a masked store: enumerate scipy's result
+    bad2 = [(k, val.subs(S, k)) for k in (0, 1, 2, 3, 8, 15, 48, 105) if sp.simplify(val.subs(S, k) - (1 if k == 0 else k)) != 0]
+    R.check(not bad2, "NORM", ff.site, "(-1)!! == 1 and n!! unchanged for n >= 0",
+            "factorial2 must return 1 where scipy returns 0 (negative arguments: (-1)!! = 1 is needed for s-type components) and scipy's value "
+            "otherwise" + (f"; for a scipy value of {bad2[0][0]} it returns {bad2[0][1]}" if bad2 else ""), where=ff.where(),
+            expected="Piecewise((1, S <= 0), (S, True))", found=str(val))
 
 
 def norm_cont_rule(repo, R):
